@@ -39,7 +39,7 @@ META = {
     'decided': ['D1 connect Deferred obligation', 'D2 endpoint walk '
                 '(incl. no state carried from one address entry to the next '
                 'while the list is parsed)',
-                'D3 loss sequence', 'D4 no iteration of live containers '
+                'D3 loss sequence (the loss is recorded before any callback or errback runs; a call issued afterwards fails at once)', 'D4 no iteration of live containers '
                 'while calling out', 'D5 proxy registry (members compare by '
                 'identity)',
                 'D6 callback / pending registries are per instance (no '
@@ -69,12 +69,42 @@ def run(ctx):
     callout_loops(ctx)
     proxy_registry(ctx)
     per_instance_registries(ctx)
+    calls_after_loss(ctx)
     ctx.floor('C09.D6', 2)
     ctx.floor('C09.D1', 4)
     ctx.floor('C09.D2', 4)
     ctx.floor('C09.D3', 4)
     ctx.floor('C09.D4', 1)
     ctx.floor('C09.D5', 2)
+
+
+LOST_SLOTS = ('lost=>failed-at-once', 'registers-only-if-not-lost',
+              'loss-is-recorded', 'lost-path-exists')
+
+
+def calls_after_loss(ctx):
+    """The registration side of "nothing fires afterwards": the clauses of
+    C08.D2 about a call issued on a lost connection, re-reported here."""
+    from . import c08
+
+    class _Sub:
+        prog = ctx.prog
+        tier = ctx.tier
+        extra = {}
+
+        def ob(self, rule, where, slot, ok, msg, detail=None,
+               nontrivial=True, loc=None):
+            if rule == 'C08.D2' and slot in LOST_SLOTS:
+                ctx.ob('C09.D3', where, slot, ok, msg, detail, nontrivial,
+                       loc)
+            return ok
+
+        def floor(self, *a):
+            pass
+
+        def advisory(self, *a):
+            pass
+    c08.run(_Sub())
 
 
 def _is_resolver_call(c):
@@ -552,6 +582,18 @@ def loss_sequence(ctx):
                           c[2][2] == 'errback']
                     oks.append(len(eb) == 1 and eb[0][3] == (reason,))
                 pend_loop = bool(oks) and all(oks)
+        # the loss is recorded before any user code runs: a call issued by
+        # a disconnect callback or an errback must be failed, not registered
+        # in the fresh table where nothing ever fails it
+        mark = [i for i, e in enumerate(p.trace)
+                if e[0] == 'setattr' and e[3] == reason]
+        outs = [i for i, e in enumerate(p.trace) if e[0] == 'loop' or (
+            e[0] == 'call' and str(e[1][1] or '').endswith('connectionLost'))]
+        ctx.ob('C09.D3', cl.qualname, 'loss-recorded-before-callouts',
+               bool(mark) and (not outs or mark[0] < outs[0]),
+               'connectionLost must record the loss reason on the connection '
+               'before it runs disconnect callbacks or errbacks: a call they '
+               'issue is otherwise registered as pending and never failed')
         ctx.ob('C09.D3', cl.qualname, 'disconnect-callbacks-run', cb_loop,
                'every registered disconnect callback must be invoked with '
                '(connection, reason)')
@@ -922,5 +964,95 @@ def per_instance_registries(ctx, rule_id='C09.D6', modules=C09_MODULES,
                        'object (%s)' % (
                            prm.arg, 'stored on the instance' if kept
                            else 'mutated in place', consequence))
+    n += _alias_mutations(ctx, rule_id, modules, consequence)
     ctx.extra['class_level_containers_checked:%s' % rule_id] = n
+    return n
+
+
+def _alias_mutations(ctx, rule_id, modules, consequence):
+    """`t = self.TABLE` ... `t += [...]` / `t.append(...)` / `t[k] = v`:
+    a class-level container mutated in place through a LOCAL ALIAS (the
+    alias must be rebound to a copy first: `t = list(self.TABLE)`)."""
+    prog = ctx.prog
+    shared = set()
+    for c in prog.all_classes.values():
+        for name, v in c.attrs.items():
+            if isinstance(v, (ast.List, ast.Dict, ast.Set)) or (
+                    isinstance(v, ast.Call) and isinstance(v.func, ast.Name)
+                    and v.func.id in ('list', 'dict', 'set')):
+                shared.add(name)
+    n = 0
+
+    def is_shared_read(v):
+        return isinstance(v, ast.Attribute) and v.attr in shared and (
+            (isinstance(v.value, ast.Name) and
+             v.value.id in ('self', 'cls')) or
+            (isinstance(v.value, ast.Call) and
+             isinstance(v.value.func, ast.Name) and
+             v.value.func.id == 'type') or
+            (isinstance(v.value, ast.Name) and
+             v.value.id[:1].isupper()))
+
+    for fi in prog.all_funcs.values():
+        if fi.module.name not in modules or fi.parent is not None:
+            continue
+        bad = []
+
+        def block(stmts, al):
+            for st in stmts:
+                al = stmt(st, al)
+            return al
+
+        def stmt(st, al):
+            if isinstance(st, ast.Assign) and len(st.targets) == 1 and \
+                    isinstance(st.targets[0], ast.Name):
+                al = dict(al)
+                if is_shared_read(st.value):
+                    al[st.targets[0].id] = st.value.attr
+                else:
+                    al.pop(st.targets[0].id, None)
+                return al
+            if isinstance(st, ast.AugAssign) and \
+                    isinstance(st.target, ast.Name) and \
+                    st.target.id in al and isinstance(st.op, ast.Add):
+                bad.append((st.lineno, al[st.target.id], '+='))
+            for node in ast.walk(st) if not isinstance(
+                    st, (ast.If, ast.For, ast.While, ast.Try, ast.With)) \
+                    else []:
+                if isinstance(node, ast.Call) and \
+                        isinstance(node.func, ast.Attribute) and \
+                        node.func.attr in _MUT and \
+                        isinstance(node.func.value, ast.Name) and \
+                        node.func.value.id in al:
+                    bad.append((node.lineno, al[node.func.value.id],
+                                '.' + node.func.attr))
+                if isinstance(node, ast.Subscript) and \
+                        isinstance(node.ctx, (ast.Store, ast.Del)) and \
+                        isinstance(node.value, ast.Name) and \
+                        node.value.id in al:
+                    bad.append((node.lineno, al[node.value.id], '[...]='))
+            if isinstance(st, ast.If):
+                a = block(st.body, al)
+                b = block(st.orelse, al)
+                return {**a, **b}
+            if isinstance(st, (ast.For, ast.While)):
+                a = block(st.body, al)
+                return {**al, **block(st.orelse, a)}
+            if isinstance(st, ast.With):
+                return block(st.body, al)
+            if isinstance(st, ast.Try):
+                a = block(st.body, al)
+                for h in st.handlers:
+                    a = {**a, **block(h.body, al)}
+                return block(st.finalbody, block(st.orelse, a))
+            return al
+        block(fi.node.body, {})
+        for line, attr, how in bad:
+            n += 1
+            ctx.ob(rule_id, fi.qualname, 'alias-mutation:%s' % attr, False,
+                   'line %d: a local bound to the class-level container %s '
+                   'is mutated in place (%s) - the change is seen by every '
+                   'instance and every later call (%s)'
+                   % (line, attr, how, consequence),
+                   loc='%s:%d' % (fi.module.relpath, line))
     return n
